@@ -257,6 +257,16 @@ class SectionMachine(object):
                 if after != exp:
                     self.fail("C15.set-value", "s[%r] = %r changed more/less than that item's value: %s" % (
                         key, op[2], "; ".join(C.diff(exp, after))))
+        elif kind == "rename":
+            if not M:
+                r.count("op-skipped")
+                return
+            j = op[1] % len(M)
+            M[j]["item"].mnemonic = op[2]          # rename through the item itself (the section is not told)
+            M[j]["orig"] = op[2]
+            self.deleted_or_replaced = True
+        elif kind == "get_default_item":
+            self.op_get_default_item(op[1], op[2], op[3])
         elif kind == "get":
             self.op_get(op[1], op[2])
         elif kind == "probe":
@@ -334,6 +344,44 @@ class SectionMachine(object):
             if len(ids_after) == len(ids_before) + 1:
                 self.M.append({"item": ids_after[-1], "orig": ids_after[-1].original_mnemonic})
         self.res.count("get:" + ("present" if exp is not None else ("absent-add" if add else "absent")))
+
+    def op_get_default_item(self, key, j, add):
+        """get(key, default=<an item>, add=...) where the default is a member of the section (j >= 0) or a fresh item."""
+        s = self.s
+        real = self.real_items()
+        member = bool(real) and j >= 0
+        default = real[j % len(real)] if member else self.new_item("DFLT", 5)
+        exp = self.first(key)
+        before = [C.citem(it, strict=True) for it in real]
+        dflt_before = C.citem(default, strict=True)
+        got = s.get(key, default, add=True) if add else s.get(key, default)
+        after_items = self.real_items()
+        after = [C.citem(it, strict=True) for it in after_items]
+        if exp is not None:
+            if got is not exp or after != before:
+                self.fail("C15.get", "get(%r, default=<item>) on a present key did not just return the present item" % (key,))
+            self.res.count("get-default-item:present")
+            return
+        if not add:
+            if len(after_items) != len(real) or any(a is not b for a, b in zip(real, after_items)) or after != before:
+                self.fail("C15.get", "get(%r, default=<%s item>) without add changed the section: %s" % (
+                    key, "member" if member else "fresh", "; ".join(C.diff(before, after))))
+        else:
+            nf = lambda lst: [dict(b, session=None) for b in lst]
+            ok = (len(after_items) == len(real) + 1 and all(a is b for a, b in zip(real, after_items)) and after_items[-1] is got
+                  and got is not default and got.original_mnemonic == key and nf(after[:-1]) == nf(before))
+            if not ok:
+                self.fail("C15.get", "get(%r, default=<%s item>, add=True) did not append exactly one new item named %r: %s" % (
+                    key, "member" if member else "fresh", key, "; ".join(C.diff(nf(before), nf(after[:-1]))) or [it.mnemonic for it in after_items]))
+            if len(after_items) == len(real) + 1:
+                self.M.append({"item": after_items[-1], "orig": after_items[-1].original_mnemonic})
+            else:
+                self.M = [{"item": it, "orig": it.original_mnemonic} for it in after_items]
+        if dict(C.citem(default, strict=True), session=None) != dict(dflt_before, session=None) and not (add and member):
+            self.fail("C15.get", "get(%r, default=<item>) modified the default item it was given" % (key,))
+        if isinstance(got, self.lasio.HeaderItem) and got.original_mnemonic != key:
+            self.fail("C15.get", "get(%r, default=<item>) returned an item named %r" % (key, got.original_mnemonic))
+        self.res.count("get-default-item:" + ("add" if add else "noadd"))
 
     def op_probe_int(self, i):
         s = self.s
@@ -425,9 +473,13 @@ def gen_ops(g, n, names, c15=False):
             q = g.random()
             if q < 0.45:
                 ops.append(["probe", key()])
-            elif q < 0.6:
+            elif q < 0.55:
                 ops.append(["get", key(), g.random() < 0.5])
                 if ops[-1][2]:
+                    used.append(ops[-1][1])
+            elif q < 0.6:
+                ops.append(["get_default_item", key(), g.choice([-1, 0, 1, 2, 5]), g.random() < 0.5])
+                if ops[-1][3]:
                     used.append(ops[-1][1])
             elif q < 0.75:
                 ops.append(["probe_int", g.randint(-7, 7)])
@@ -436,8 +488,11 @@ def gen_ops(g, n, names, c15=False):
                             g.choice([None, 1, 2, -1])])
             elif q < 0.93:
                 ops.append(["del_absent", key()])
-            else:
+            elif q < 0.97:
                 ops.append(["set_value", g.randrange(8), g.choice(VALUES), g.choice(["item", "attr", "int"])])
+            else:
+                ops.append(["rename", g.randrange(8), g.choice(names)])
+                used.append(ops[-1][2])
         elif r < 0.62:
             ops.append(["append", g.choice(names)])
             used.append(ops[-1][1])
